@@ -90,7 +90,7 @@ CLAIMED["C05"] = dict(
           "serving plain text and Markdown) live on a pool of real OS threads of which a baton releases exactly one at a time; the scheduler PRNG chooses the thread "
           "of every operation, linters migrate between threads, threads are spawned and retired, rules are toggled and toggled back, words are imported. Documents are "
           "assembled so that caches are hit in a different context than they were filled in (other offset, other language whose tokens differ for the same characters, "
-          "other configuration, after >10 000 distinct clauses). After every lint the complete result including order must equal that of a fresh linter on a fresh thread; "
+          "other configuration, after >10 000 distinct clauses, with known words in another letter case). After every lint the complete result including order must equal that of a fresh linter on a fresh thread; "
           "every history runs in three hash universes (foldhash seeds, getrandom stream, clock epoch) inside separate forked processes and per-operation digests must agree."),
     design_ref="DESIGN.md §3 C05",
     note=("One thread runs at a time: true parallel execution of two lints is not explored (Harper shares no mutable state across threads other than lazily initialised statics and "
